@@ -77,7 +77,11 @@ extern "C" void k_cow()
   // ---- element access
   for (int i = 0; i < N; i++)
   {
+#ifdef VF_MUTANT // self-test of the check: a write that bypasses _detach must be reported (and replay natively)
+    SCEN("operator[]", { (*A._v)[i] = w; WROTE((*A._v)[i] == w, "operator[]"); })
+#else
     SCEN("operator[]", { A[i] = w; WROTE((*A._v)[i] == w, "operator[]"); })
+#endif
     SCEN("at", { A.at(i) = w; WROTE((*A._v)[i] == w, "at"); })
     SCEN("setAt", { A.setAt(i, w); WROTE((*A._v)[i] == w, "setAt"); })
     SCEN("data", { A.data()[i] = w; WROTE((*A._v)[i] == w, "data"); })
